@@ -9,6 +9,7 @@ import (
 	"github.com/paulsonkoly/chess-3/move"
 	"github.com/paulsonkoly/chess-3/search"
 
+	"verif/harness/conv"
 	"verif/harness/eng"
 	"verif/harness/ev"
 	"verif/harness/gen"
@@ -86,7 +87,7 @@ func game(r *ev.Run, wk int, w *gameWitness, verbose bool) {
 		r.Count("game_searches_on_warm_tables", 1)
 		var next ref.Move
 		for _, m := range root.Pos.Legal() {
-			if move.Move(m) == res.Move {
+			if conv.M(m) == res.Move {
 				next = m
 			}
 		}
@@ -192,7 +193,7 @@ func uciCase(r *ev.Run, root *strace.Root, w uciWitness) {
 		}
 		for _, m := range root.Pos.Legal() {
 			if m.String() == s {
-				return move.Move(m)
+				return conv.M(m)
 			}
 		}
 		return move.Move(0x7fff) // not a legal root move: C06 judges that, here it only must equal the pv head
